@@ -7,7 +7,8 @@
   transcribes these patterns character class by character class).
 * texts: netlists rendered by harness/vlog_gen.py, random raw trees written with arbitrary ignored text between the
   tokens (ground truth: the tree), character- and token-level mutations that usually leave the language, token soup, and
-  the probes that determined the model.  For every text the RAW tree of Lark(GRAMMAR, parser='lalr') without transformer
+  the probes that determined the model (incl. texts that end in a "//" comment without line break: accepted since the repair of the
+  COMMENT terminal, `"//" /[^\n]*/`).  For every text the RAW tree of Lark(GRAMMAR, parser='lalr') without transformer
   (None when it raises) is compared with parse_verilog, and verilog.parse as a whole (every node, line and io entry of
   every circuit) with circuits_of_text.
 * print_tree output is read back by lark; VerilogTransformer.name against name_cb.
@@ -154,7 +155,7 @@ PUNCT_TERMS = {'SEMICOLON': 'TSemi', 'LPAR': 'TLpar', 'RPAR': 'TRpar', 'EQUAL': 
                'LSQB': 'TLsqb', 'RSQB': 'TRsqb', 'LBRACE': 'TLbrace', 'RBRACE': 'TRbrace'}
 # the patterns Model/VerilogText.v transcribes (lark's to_regexp() of the terminals of the pinned grammar)
 PATTERNS = {
-    '__IGNORE_0': '(?:(?:(?:\\/\\*(\\*(?!\\/)|[^*])*\\*\\/|\\(\\*(\\*(?!\\))|[^*])*\\*\\)|//(.)*(?:(?:\r)?\n)+)|\r?\n))+',
+    '__IGNORE_0': '(?:(?:(?:\\/\\*(\\*(?!\\/)|[^*])*\\*\\/|\\(\\*(\\*(?!\\))|[^*])*\\*\\)|//[^\n]*)|\r?\n))+',
     '__IGNORE_1': '[\t \x0c]+',
     '__ANON_0': '[0-9]+',
     '__ANON_1': '(?i:[a-z_][a-z0-9_]*)',
@@ -417,6 +418,8 @@ def render(toks, rng, rich=True):
         prev_top = mode == 'top' and t == 'module'
         mode = 'top' if (mode == 'stmt' and t == 'endmodule') else 'stmt' if t == ';' else 'gen'
         prev = t
+    if rich and rng.random() < 0.15:           # a last line comment without line break (read since the repair of the COMMENT terminal)
+        out += '//' + rng.choice(COMMENT_BODIES).replace('\n', ' ')
     return out
 
 
